@@ -7,7 +7,7 @@ import (
 	"verifharness/corr"
 )
 
-func runScenarioExt(c *corr.Ctx, sc *Scenario) bool {
+func runScenarioExt(c *rctx, sc *Scenario) bool {
 	switch sc.Kind {
 	case "sess":
 		runSess(c, sc)
@@ -81,6 +81,8 @@ func kernelScenarios(c *corr.Ctx) []*Scenario {
 		}
 		add(kcfg{Record: rec, Mode: "timeout-foreign", Wild: true})
 		add(kcfg{Record: rec, Mode: "timeout-legit"})
+		add(kcfg{Record: rec, Mode: "after-end-teardown"})
+		add(kcfg{Record: rec, Mode: "after-end-timeout", Wild: true})
 		add(kcfg{Record: rec, Mode: "steal-udp"})
 		add(kcfg{Record: rec, Mode: "steal-tcp", Wild: rec})
 	}
@@ -89,6 +91,7 @@ func kernelScenarios(c *corr.Ctx) []*Scenario {
 }
 
 func runExt(c *corr.Ctx) {
+	runAfterEnd(c)
 	for _, sc := range kernelScenarios(c) {
 		runScenario(c, sc)
 	}
